@@ -91,6 +91,8 @@ pub fn composites<V: Visitor>(v: &mut V) {
         // collapsing regions
         Collapse<StrS>, Collapse<Owned<u8>>, Collapse<Cip<StrS, IO>>, Collapse<Cip<Owned<u8>, VU>>,
         Collapse<M8>, Collapse<Mirror<f32>>, Collapse<Mirror<()>>, Collapse<Str<Cip<BytesR, IO>>>,
+        // offsets beyond u32::MAX and 2^63 under a collapsing region (zero-sized elements)
+        Collapse<Cip<OwnedZst, IO>>, Collapse<Cip<OwnedZst, IL>>,
     );
     cloneonly!(v,
         SliceN<Huff<u8>>, Cip<Huff<u8>, IO>, Columns<Huff<u8>, IO>, Cip<CodecPrefix, IO>,
